@@ -22,7 +22,7 @@ ASSUMPTIONS = ['thread cases: preemption happens only at the scheduler\'s yield 
                'C-level races inside BTrees/persistent/pickle are not explored',
                'sequential cases: interleaving of whole API calls in one thread']
 BUDGET = {'quick': {'examples': 8000, 'workers': 8},
-          'thorough': {'examples': 30000, 'workers': 16}}
+          'thorough': {'examples': 60000, 'workers': 16}}
 
 
 def thread_strategy(roles):
